@@ -69,7 +69,7 @@ def run(pid, tier, seed, replay=None):
             ev = find_event(c["part"], c["ep"])
             legacy_val = None
             try:
-                for p in ev["before"]["inst"][0]["props"]:
+                for p in ev["before"]["inst"][ev.get("focus", 1) - 1]["props"]:
                     if p[0] == ev["legacy"]:
                         legacy_val = p[1]
             except Exception:
